@@ -79,6 +79,9 @@ func (a *API) enter(ctx context.Context, tok int) *Tok {
 	simrt.Rec("hstart", strconv.Itoa(tok), connOf(ctx), 0)
 	if sl > 0 {
 		time.Sleep(time.Duration(sl))
+		// several handlers may wake at the same fake instant: let the scheduler,
+		// not the Go runtime, decide who runs first from here
+		simrt.Yield("handler-wake-" + strconv.Itoa(tok))
 	}
 	if hold {
 		simrt.Yield("handler-" + strconv.Itoa(tok))
@@ -91,6 +94,9 @@ func (a *API) enter(ctx context.Context, tok int) *Tok {
 	t.mu.Unlock()
 	if gate != nil {
 		<-gate
+		// a gate releases all its waiters at once: from here the scheduler, not the
+		// Go runtime, decides who runs first
+		simrt.Yield("gate-wake-" + strconv.Itoa(tok))
 	}
 	return t
 }
@@ -469,6 +475,7 @@ type SlowVal struct {
 func (v SlowVal) MarshalJSON() ([]byte, error) {
 	if v.Sleep > 0 {
 		time.Sleep(v.Sleep)
+		simrt.Yield("slowval-wake-" + strconv.Itoa(v.Tok))
 	}
 	return []byte(strconv.Quote(Result(v.Tok, 0))), nil
 }
@@ -512,6 +519,7 @@ func (h *RevHandler) Who(ctx context.Context, tok int) (string, error) {
 	t.mu.Unlock()
 	if gate != nil {
 		<-gate // released by the scenario (e.g. only after a reconnect)
+		simrt.Yield("revgate-wake-" + strconv.Itoa(tok))
 	}
 	if t.Panic != "" && t.Kind == "rev" {
 		doPanic(t.Panic, tok)
@@ -537,6 +545,7 @@ func (h *RevHandler) SubR(ctx context.Context, tok int) (<-chan int, error) {
 			if k == 1 && gate != nil {
 				select {
 				case <-gate:
+					simrt.Yield("rprod-gate-wake")
 				case <-h.e.Done:
 					return
 				}
